@@ -568,6 +568,15 @@ func (P) Exec(c *harness.Case) *harness.Outcome {
 			if last == nil || (last.kind != "load" && last.kind != "loadres") || len(last.list) == 0 || last.err != nil {
 				continue
 			}
+			nan := false
+			for _, r := range last.list {
+				if !r.Nil && r.M == rs.Flow && r.Var == 12 {
+					nan = true // a list with a NaN in it is not even equal to itself
+				}
+			}
+			if nan {
+				continue
+			}
 			o.Probe("identical_reload")
 			var changed bool
 			harness.Call(o, "C13.load-panicked", step, func() { changed, _ = call(last.m, last.kind, last.res, last.list) })
